@@ -133,6 +133,9 @@ async def base_session(sim, shape, inject):
                 except BaseException:
                     pass
         await sim.settle(0.05)
+        # snapshot before the harness tears the loop down: which of the client's background tasks are still alive
+        sim.tasks_alive = [name for name in ("_receive_task", "_process_queue_task")
+                           if getattr(c, name, None) is not None and not getattr(c, name).done()]
         sim.stop()
     return sim
 
@@ -183,7 +186,7 @@ def scenarios(ctx):
                 for action in ("none", "close", "eof", "readerr", "writefail", "drainfail", "garbage-eof", "connect"):
                     points = [("ticks", t) for t in range(0, 14)] + [("at", a) for a in (0.0005, 0.003, 0.015, 0.4, 0.9, 2.0, 5.0)]
                     for kindp, v in points:
-                        for cbm, stm in (("ok", "ok"), ("raise", "ok"), ("slow", "slow"), ("ok", "raise"), (["ok", "close"], "ok"), ("close", "raise")):
+                        for cbm, stm in (("ok", "ok"), ("raise", "ok"), ("slow", "slow"), ("ok", "raise"), (["ok", "close"], "ok"), ("close", "raise"), ("ok", "close-on-disconnect")):
                             out.append(dict(kind=kind, shape=shape, connect=cs, action=action, point=[kindp, v], cb=cbm, status=stm,
                                             drain=rnd.choice([None, [1], [0, 2], [3]])))
     rnd.shuffle(out)
@@ -416,7 +419,7 @@ def monitor(sim, sc):
     ev = sim.events
     kind = sc["kind"]
     closed_idx = next((i for i, e in enumerate(ev) if e == "status CLOSED"), None)
-    close_call = next((i for i, e in enumerate(ev) if e == "closeCall"), None)
+    close_call = next((i for i, e in enumerate(ev) if e.startswith("closeCall")), None)
     close_ret = next((i for i, e in enumerate(ev) if e == "closeReturn"), None)
     # C13: single receiver, no stall, back-off, recovery
     live = 0
@@ -465,12 +468,14 @@ def monitor(sim, sc):
             out.append(("C14", "callback-after-close", "receive callback ran after close() returned"))
         if sim.conns and not sim.conns[-1][2].closed and sim.c.writer is sim.conns[-1][2]:
             out.append(("C14", "link-open", "the link is still open after close() returned"))
-        for name in ("_receive_task", "_process_queue_task"):
-            t = getattr(sim.c, name, None)
-            if t is not None and not t.done():
-                out.append(("C14", "task-alive", f"{name} still running after close() returned"))
+        for name in getattr(sim, "tasks_alive", []):
+            out.append(("C14", "task-alive", f"{name} still running at the end of the session, after close() returned"))
+    # close() raising: with a single close() call nothing else can have cancelled the caller, so a CancelledError is the
+    # client cancelling the very task close() runs in (two overlapping close() calls may legitimately cancel one another)
+    for e in (getattr(sim, "close_raised", []) if sum(1 for x in ev if x.startswith("closeCall")) == 1 else [x for x in getattr(sim, "close_raised", []) if x != "CancelledError"]):
+        out.append(("C14", "close-raised", f"close() did not return normally: {e} (status callback mode {sc['status']}, receive callback mode {sc['cb']})"))
     # C13 recovery: a fault that happened while CONNECTED and before any close must be followed by DISCONNECTED and (given time) CONNECTED again
-    if fault and sc["action"] != "close":
+    if fault and sc["action"] != "close" and sc["status"] != "close-on-disconnect":
         fi = next(i for i, e in enumerate(ev) if e.startswith(("envEof", "envReadErr", "writeFail", "drainFail")))
         before = [e for e in ev[:fi] if e.startswith("status")]
         after = [e.split()[1] for e in ev[fi:(close_call if close_call is not None else len(ev))] if e.startswith("status")]
